@@ -8,6 +8,16 @@ from .prog import MARK, enc
 RES = ("thread", "async-thread", "main-thread")
 
 
+def chance(draw: Any, p: float) -> bool:
+    """True with probability ~p.  Hypothesis biases floats / integers / sampled_from towards small values
+    (measured: floats(0, 1) < 0.15 holds in 36% of the draws), so the number is assembled from six boolean draws;
+    shrinking (towards False bits) turns the feature off."""
+    n = 0
+    for i in range(6):
+        n |= int(draw(st.booleans())) << i
+    return n >= 64 - int(round(p * 64))
+
+
 def site(i: int) -> str:
     return f"{MARK}s{i}"
 
@@ -65,7 +75,7 @@ def flat_prog(
                 spec["prio"] = draw(st.integers(prio_range[0], prio_range[1]))
             if draw(st.sampled_from([True, False, False, False])):
                 spec["qual"] = f"mk.<locals>.{fn}"  # a function defined inside another function
-            if same_qual_rate and i not in setup_idx and i not in debug_idx and draw(st.floats(0, 1)) < same_qual_rate:
+            if same_qual_rate and i not in setup_idx and i not in debug_idx and chance(draw, same_qual_rate):
                 # two different decorated functions with ONE qualified name (closures made by the same factory, the
                 # same function decorated twice with different options): each keeps its own attributes
                 prev = [g for g, sp in fns.items() if not sp.get("setup") and not sp.get("debug")]
@@ -89,7 +99,7 @@ def flat_prog(
                 else:
                     spec["kind"] = "dict"  # {"a": term, "b": [term, (term, term)]}
             elif split_rate and "flag" in dep_kinds and i not in setup_idx and i not in debug_idx and fn == names[i] \
-                    and draw(st.floats(0, 1)) < split_rate:
+                    and chance(draw, split_rate):
                 # a producer of a pair whose two elements are truthy / falsy independently: later sites are flagged
                 # by ONE element each (twz_active=pair[0] / pair[1])
                 pool_ = [0, 1, "", "x", None, True, False]
@@ -137,6 +147,12 @@ def flat_prog(
                 else:
                     args.append(e)
         pairs = [j for j in pool if fns[body[j]["fn"]].get("pair")] if split_rate else []
+        sibl = [body[j]["active"] for j in deps if body[j].get("active") and body[j]["active"][0] == "i"
+                and body[j]["active"][2] in (0, 1)] if split_rate else []
+        if sibl and "flag" in dep_kinds and active is None and i not in setup_idx and i not in debug_idx and draw(st.booleans()):
+            # a site that consumes a flagged site is itself flagged by the OTHER element of the same pair
+            a0 = draw(st.sampled_from(sibl))
+            active = ["i", a0[1], 1 - a0[2]]
         if pairs and "flag" in dep_kinds and active is None and i not in setup_idx and i not in debug_idx and draw(st.booleans()):
             active = ["i", ["v", f"v{draw(st.sampled_from(pairs))}"], draw(st.integers(0, 1))]
         if "flag" in dep_kinds and active is None and i not in setup_idx and i not in debug_idx \
